@@ -258,7 +258,12 @@ class Interp:
     def ev_Lambda(self, e, fr):
         fi = FuncInfo(fr.module.name, (fr.func.qualname + '.' if fr.func else '') + '<lambda>', e, fr.defcls,
                       'function')
+        fi.early_defaults = self._eval_defaults(e.args, fr)
         return FuncRef(fi, fr)
+
+    def _eval_defaults(self, a: ast.arguments, fr):
+        """default values are evaluated once, when the def / lambda is executed (not at call time)"""
+        return {id(d): self.ev(d, fr) for d in list(a.defaults) + [k for k in a.kw_defaults if k is not None]}
 
     def ev_NamedExpr(self, e, fr):
         v = self.ev(e.value, fr)
@@ -814,7 +819,7 @@ class Interp:
         o.fields.update(vals)
 
     # ---------------------------------------------------------------- function bodies
-    def bind_args(self, node: ast.arguments, args, kwargs, defframe: Frame, fname='?'):
+    def bind_args(self, node: ast.arguments, args, kwargs, defframe: Frame, fname='?', early=None):
         out = {}
         params = list(node.posonlyargs) + list(node.args)
         defaults = [None] * (len(params) - len(node.defaults)) + list(node.defaults)
@@ -828,7 +833,7 @@ class Interp:
             elif p.arg in kwargs and p not in node.posonlyargs:
                 out[p.arg] = kwargs.pop(p.arg)
             elif d is not None:
-                out[p.arg] = self.ev(d, defframe)
+                out[p.arg] = early[id(d)] if early is not None and id(d) in early else self.ev(d, defframe)
             else:
                 self.raise_('TypeError', f'{fname}: missing argument {p.arg}')
         if node.vararg:
@@ -840,7 +845,7 @@ class Interp:
             if p.arg in kwargs:
                 out[p.arg] = kwargs.pop(p.arg)
             elif d is not None:
-                out[p.arg] = self.ev(d, defframe)
+                out[p.arg] = early[id(d)] if early is not None and id(d) in early else self.ev(d, defframe)
             else:
                 self.raise_('TypeError', f'{fname}: missing keyword argument {p.arg}')
         if node.kwarg:
@@ -869,7 +874,8 @@ class Interp:
         module = self.P.modules[fi.module]
         defframe = frame if frame is not None else Frame(module)
         fr = Frame(module, frame, fi, defcls)
-        fr.vars.update(self.bind_args(fi.node.args, args, kwargs, defframe, fi.qualname))
+        fr.vars.update(self.bind_args(fi.node.args, args, kwargs, defframe, fi.qualname,
+                                      getattr(fi, 'early_defaults', None)))
         if self.depth > 0:
             self.inlined.add(full)
         self.depth += 1
@@ -1102,6 +1108,7 @@ class Interp:
     def st_FunctionDef(self, s, fr):
         fi = FuncInfo(fr.module.name, (fr.func.qualname + '.' if fr.func else '') + s.name, s, fr.defcls, 'function',
                       list(s.decorator_list))
+        fi.early_defaults = self._eval_defaults(s.args, fr)
         f = FuncRef(fi, fr)
         for d in reversed(s.decorator_list):
             dv = self.ev(d, fr)
